@@ -267,8 +267,9 @@ class Fn:
             return '()' if z == '()' else 'zst:' + strip_generics(z)
         if 'named' in k:
             if k.get('promoted') is not None:
-                f = self.prog.fns.get(k['named'])
-                if f is None and k['named'] == self.path:
+                nm = self.prog.raw2norm.get(k['named'], strip_generics(k['named']))
+                f = self.prog.fns.get(nm)
+                if f is None or nm == self.path.split('::promoted[')[0]:
                     f = self
                 if f is not None and k['promoted'] < len(f.promoted):
                     return f.promoted_term(k['promoted'], depth + 1)
